@@ -1,4 +1,5 @@
 import W2c2Verif.Model.Threads
+import W2c2Verif.CSem.Expr
 
 /-!
   Model.Futex — executable model of `/repo/futex/futex.c` (`wasmMemoryAtomicWait`,
@@ -378,5 +379,33 @@ def PC.isYield : PC → Bool
   | .wLock | .wUnlockNe | .wCondWait | .wParked | .wUnlock | .nLock | .nSignal | .nUnlock | .sPoint => true
   | .crashed _ => true
   | _ => false
+
+/-! ### emission of wait / notify by `c.c` (`wasmCWriteMemoryAtomicWaitExpr`, `…NotifyExpr`)
+
+  Operands are the top type-stack entries: for wait at stack index `k` (address), `k+1` (expected),
+  `k+2` (timeout); the result replaces the address slot.  The address argument is the address
+  operand's stack variable plus the memarg's static offset as an unsigned literal (nothing is
+  appended for offset 0).  `addrExpr` is the C expression that text denotes. -/
+namespace Emit
+
+def stackName (ty : String) (k : Nat) : String := "s" ++ ty ++ toString k
+
+def addrText (k off : Nat) : String :=
+  stackName "i" k ++ (if off = 0 then "" else "+" ++ toString off ++ "U")
+
+def waitStmt (w64 : Bool) (k off : Nat) : String :=
+  stackName "i" k ++ "=wasmMemoryAtomicWait(i->m0," ++ addrText k off ++ "," ++
+    stackName (if w64 then "j" else "i") (k + 1) ++ "," ++ stackName "j" (k + 2) ++ "," ++
+    (if w64 then "true" else "false") ++ ");"
+
+def notifyStmt (k off : Nat) : String :=
+  stackName "i" k ++ "=wasmMemoryAtomicNotify(i->m0," ++ addrText k off ++ "," ++ stackName "i" (k + 1) ++ ");"
+
+/-- the C expression passed for the `U32 address` parameter -/
+def addrExpr (k off : Nat) : CExpr :=
+  if off = 0 then .var (stackName "i" k)
+  else .bin .add (.var (stackName "i" k)) (.lit (.u32 (BitVec.ofNat 32 off)))
+
+end Emit
 
 end W2c2Verif.Futex
